@@ -11,6 +11,7 @@
 #include <map>
 #include <unordered_set>
 #include <string>
+#include <string_view>
 #include <vector>
 #include <array>
 #include <tuple>
@@ -20,9 +21,12 @@
 
 #if __has_include(<valgrind/valgrind.h>)
 #include <valgrind/valgrind.h>
+#include <valgrind/memcheck.h>
 #define C19_VG_ERRORS() ((long)VALGRIND_COUNT_ERRORS)
+#define C19_VG_UNDEF(p, n) ((void)VALGRIND_MAKE_MEM_UNDEFINED(p, n))
 #else
 #define C19_VG_ERRORS() (0L)
+#define C19_VG_UNDEF(p, n) ((void)0)
 #endif
 
 namespace c19
@@ -244,6 +248,7 @@ namespace c19
         {
             kill();
             std::memset(raw, fill, sizeof raw);
+            C19_VG_UNDEF(raw, sizeof raw);  // memcheck: the bytes have a fixed value but count as uninitialised
             f((void*)raw);
             live = true;
         }
@@ -283,8 +288,16 @@ namespace c19
     inline void put(std::string& s, long long v)
     {
         char b[32];
-        snprintf(b, sizeof b, " %lld", v);
-        s += b;
+        char* e = b + sizeof b;
+        char* p = e;
+        unsigned long long u = v < 0 ? 0ULL - (unsigned long long)v : (unsigned long long)v;
+        do {
+            *--p = (char)('0' + u % 10);
+            u /= 10;
+        } while (u);
+        if (v < 0) *--p = '-';
+        *--p = ' ';
+        s.append(p, (size_t)(e - p));
     }
 
     // ---------------------------------------------------------------- generic history runner
@@ -299,6 +312,7 @@ namespace c19
     //   long refused();                              cumulative number of refused (over-capacity) operations
     //   void extra(std::string&);                    implementation-visible extras (not compared)
     //   void finish();                               destroy whatever is left (after an aborted history)
+    //   static constexpr bool refine_leak0;          a leak of zero-sized blocks only is its own symptom class
     struct Agg
     {
         // (opclass, symptom) -> count, witness
@@ -310,7 +324,7 @@ namespace c19
             int at = 0;
         };
         std::map<std::pair<std::string, std::string>, Ent> ents;
-        std::map<std::string, long> opclasses;
+        std::map<std::string, long, std::less<>> opclasses;
         std::unordered_set<size_t> states;
         long hist = 0, steps = 0, allocs = 0, frees = 0, memcpys = 0, cap_events = 0, cap_refused = 0, at_events = 0;
         long obj_ctor = 0, obj_dtor = 0, harness_err = 0, undefined_cells = 0, crossings = 0;
@@ -351,19 +365,34 @@ namespace c19
         long ev_prev[4] = {0, 0, 0, 0};
         long al_prev[3] = {0, 0, 0};
         std::vector<std::pair<std::string, std::string>> found;
-        std::string ls, ms;
+        std::string ls, ms, whole;
         bool aborted = false;
         agg.hist++;
-        for (int k = 0; k < (int)all.size(); k++) {
-            const Step& st = all[(size_t)k];
+        // A constructing step on a slot that still holds an object is preceded by a synthetic destroy step
+        // (apply() returns nullptr to ask for it), so that what the destructor does is attributed to "destroy".
+        for (size_t idx = 0; idx < all.size();) {
+            Step st = all[idx];
+            const int k = (int)idx;
             al.step = k;
-            std::string cls = m.apply(st, k);
+            const char* c = m.apply(st, k);
+            if (!c) {
+                st = Step{0, st.x, 0};
+                c = m.apply(st, k);
+                if (!c) c = "skip";
+            } else {
+                idx++;
+            }
+            const char* cls = c;
             agg.steps++;
-            agg.opclasses[cls]++;
+            {
+                auto it = agg.opclasses.find(std::string_view(cls));
+                if (it == agg.opclasses.end()) agg.opclasses.emplace(std::string(cls), 1);
+                else it->second++;
+            }
             size_t nfound0 = found.size();
             if (auto sp = m.special()) found.emplace_back(cls, sp);
             // ---- observable state, both sides
-            std::string whole;
+            whole.clear();
             const char* sym = nullptr;
             for (int s = 0; s < M::NS; s++) {
                 ls.clear();
@@ -391,7 +420,7 @@ namespace c19
             long bound = m.block_bound();
             long excess = n0 + npos - bound;
             if (excess < 0) excess = 0;
-            if (excess > excess_prev) found.emplace_back(cls, npos <= bound ? "leak_block0" : "leak");
+            if (excess > excess_prev) found.emplace_back(cls, (M::refine_leak0 && npos <= bound) ? "leak_block0" : "leak");
             excess_prev = excess;
             long objL = (long)R<0>().live.size(), objM = (long)R<1>().live.size();
             long objdiff = objL - objM;
@@ -428,6 +457,16 @@ namespace c19
             long vg = C19_VG_ERRORS();
             if (vg > vg_prev) found.emplace_back(cls, "memcheck");
             vg_prev = vg;
+            // an assignment into an unconstructed object implies the missing construction: one symptom, not two
+            {
+                bool au = false;
+                for (size_t f = nfound0; f < found.size(); f++) au = au || found[f].second == "assign_unconstructed";
+                if (au)
+                    for (size_t f = nfound0; f < found.size();) {
+                        if (found[f].second == "object_missing") found.erase(found.begin() + (long)f);
+                        else f++;
+                    }
+            }
             if (trace) {
                 std::string& t = *trace;
                 t += " |";
@@ -449,7 +488,8 @@ namespace c19
                     t += found[f].second;
                 }
             }
-            if (sym) {
+            // the first deviating step ends the history: what follows would only be consequences of it
+            if (found.size() > nfound0) {
                 aborted = true;
                 break;
             }
@@ -543,6 +583,18 @@ namespace c19
         out.tok("T");
         out.buf += trace;
         out.tok("|E");
+        emit_agg(out, agg);
+    }
+
+    // histq <fill> <steps>           : one history, summary only (verdict of the C++ side model)
+    template <typename M>
+    void op_histq(vh::Args& in, vh::Out& out)
+    {
+        int fill = (int)in.i();
+        auto steps = read_steps(in);
+        M m;
+        Agg agg;
+        run_history(m, steps, fill, nullptr, agg);
         emit_agg(out, agg);
     }
 
